@@ -26,11 +26,12 @@ type rule struct {
 
 var seams = map[string]rule{
 	"vfs": {pkgs: []string{"pkg/storage"}, imports: map[string][2]string{
-		"os":                            {"mcverif/vfs", "os"},
+		"os":                             {"mcverif/vfs", "os"},
 		"sigs.k8s.io/release-utils/util": {"mcverif/vfs/vutil", "util"},
 	}},
 	"sync": {pkgs: []string{"pkg/reader", "pkg/writer", "pkg/formats", "pkg/storage"}, imports: map[string][2]string{
-		"sync": {"mcverif/vsync", "sync"},
+		"sync":        {"mcverif/vsync", "sync"},
+		"sync/atomic": {"mcverif/vsync/vatomic", "atomic"},
 	}},
 }
 
